@@ -22,7 +22,7 @@ Check C09_N1_witness :
     c_follow c = true /\ conservative all_true all_true /\
     walk all_true all_true no_ign t c s1 roots = Done l1 /\
     walk all_true all_true no_ign t c s2 roots = Done l2 /\
-    In x l1 /\ ~ In x l2.
+    In x l1 /\ selected all_true all_true no_ign t c false roots x /\ ~ In x l2.
 Check C09_N2_witness :
   exists sel_file sel_dir t c roots x,
     conservative sel_file sel_dir /\ c_follow c = true /\
